@@ -68,13 +68,14 @@ def canonLoc (b : Select.Bytes) : Select.Bytes :=
     (b.drop pre.length).take (b.length - pre.length - suf.length)
   else b
 
-/-- spec-level "the same record": every column but location / md5short, the molecule type as parsed -/
+/-- spec-level "the same record": every column but location / md5short, the molecule type as
+    `Record::moltype()` parses it (a name it does not know: as it lower-cases it before it gives up) -/
 def sameRec (x y : Record) : Bool :=
   let strip (r : Record) : Record := { r with internalLocation := [], md5short := [], moltype := [] }
   decide (strip x = strip y) &&
     (match x.mol?, y.mol? with
      | some a, some b => decide (a = b)
-     | _, _ => x.moltype == y.moltype)
+     | _, _ => x.moltype.map asciiLower == y.moltype.map asciiLower)
 
 def pickIdx (st : St) (s : String) : List Record := (natList s).map (fun i => st.recs[i]!)
 
